@@ -84,10 +84,24 @@ def post_mpmc(log_path, case):
     return None
 
 
+def _hp_scale_part():
+    from parts_hpscale import HP_SCALE_PART as src
+    part = dict(src)
+
+    def gen(rng, tier, _g=src["gen"]):
+        cs = _g(rng, tier)
+        return cs if tier == "thorough" else cs[:48]
+    part["gen"] = gen
+    return part
+
+
 SPEC = {
     "C13": {
         "extra_props": ("QueueHist",),
-        "parts": [{"name": "mpmc", "harness": "mpmc", "model": "Mpmc", "gen": gen_mpmc, "post": post_mpmc}],
+        "parts": [{"name": "mpmc", "harness": "mpmc", "model": "Mpmc", "gen": gen_mpmc, "post": post_mpmc},
+                  # the composition assumption (C14: nothing protected is reclaimed) at scales and
+                  # address patterns the access-level harness cannot reach: C14's scale part re-run here
+                  _hp_scale_part()],
         "trusted_base": [
             "composition assumption: hazard pointers — a node is reclaimed (gc callback) only if it was retired and "
             "no thread holds a slot on it that was published and validated before the retirement "
